@@ -11,90 +11,114 @@
 (***************************************************************************)
 EXTENDS ChainServer, Json, IOUtils, TLCExt
 
-CONSTANT WithSnapshots   \* FALSE for a backend that does not support snapshots (local)
+CONSTANTS WithSnapshots,   \* FALSE for a backend that does not support snapshots (local)
+          ExpectCovers,    \* TRUE: the snapshot served must cover every discarded version
+          CanTrim          \* TRUE for a backend that discards versions covered by its snapshot
+                           \* once they are older than its retention age (git)
 
 Rec == ndJsonDeserialize(IOEnv.TRACE)
-VARIABLE l
-tvars == <<cvars, l>>
+VARIABLES l,
+          olds             \* ids of versions committed while the harness backdated commits
+                           \* beyond the retention age (AV events carry "old")
+tvars == <<cvars, l, olds>>
 E == Rec[l]
 IsEvent(name) == l <= Len(Rec) /\ Rec[l].a = name /\ l' = l + 1
 
 IsGhost(x) == x <= -1000
-Ids == {chain[i].id : i \in DOMAIN chain}
 Fresh(n) == n >= 1 /\ n \notin Ids
 Ren(ch, g, n) == [i \in DOMAIN ch |->
                     [ch[i] EXCEPT !.id = IF @ = g THEN n ELSE @, !.parent = IF @ = g THEN n ELSE @]]
 (* the chain after learning that the spec id x is called n in the trace *)
 Learn(ch, x, n) == IF IsGhost(x) THEN Ren(ch, x, n) ELSE ch
 Match(x, n) == x = n \/ (IsGhost(x) /\ Fresh(n))
+RenSet(S, x, n) == IF IsGhost(x) THEN {IF y = x THEN n ELSE y : y \in S} ELSE S
+IsOld == "old" \in DOMAIN E /\ E.old
 
-TReset == IsEvent("Reset") /\ chain' = <<>> /\ snaps' = {} /\ ghost' = 0
+TReset == IsEvent("Reset") /\ chain' = <<>> /\ snaps' = {} /\ ghost' = 0 /\ gone' = {} /\ olds' = {}
+
+(* the harness switches between backdated and current commit dates *)
+TEpoch == IsEvent("Epoch") /\ UNCHANGED <<cvars, olds>>
 
 TAddOk ==
   /\ IsEvent("AV") /\ E.res = "ok"
   /\ Fresh(E.ver)
   /\ AddVersionOk(E.parent, E.body, E.ver)
+  /\ olds' = IF IsOld THEN olds \cup {E.ver} ELSE olds
 
-(* the call in which a failure was injected may also answer "rejected, expected  *)
-(* N" where N is the very version it added (the backend learnt from the remote   *)
-(* that its own push had arrived): the version is fully accepted                *)
-TAddFaultedAccepted ==
-  /\ IsEvent("AV") /\ E.res = "expected" /\ E.faulted
-  /\ Accepts(E.parent) /\ Fresh(E.ver)
-  /\ AddVersionOk(E.parent, E.body, E.ver)
+(* A call may not answer "rejected" when its version was in fact added: "changes nothing  *)
+(* on rejection" holds under injected faults too.  (Until fix G7 the git backend reported  *)
+(* Expected(its own new version) when the reply of a push that had arrived was lost; the  *)
+(* former clause TAddFaultedAccepted that tolerated this has been removed.)               *)
 
 (* a handle could not be (re)opened because of an injected failure: nothing happened *)
-TOpenFailed == IsEvent("OpenFailed") /\ E.faulted /\ UNCHANGED cvars
+TOpenFailed == IsEvent("OpenFailed") /\ E.faulted /\ UNCHANGED <<cvars, olds>>
 
 TAddRejected ==
   /\ IsEvent("AV") /\ E.res = "expected"
   /\ ~Accepts(E.parent)
   /\ Match(Latest, E.ver)
   /\ chain' = Learn(chain, Latest, E.ver)
+  /\ gone' = RenSet(gone, Latest, E.ver) /\ olds' = RenSet(olds, Latest, E.ver)
   /\ UNCHANGED <<snaps, ghost>>
 
 TAddFailed ==
   /\ IsEvent("AV") /\ E.res = "error"
-  /\ \/ UNCHANGED cvars
+  /\ \/ UNCHANGED <<cvars, olds>>
      \/ /\ Accepts(E.parent)
         /\ chain' = Append(chain, [parent |-> E.parent, id |-> -1000 - ghost, body |-> E.body])
         /\ ghost' = ghost + 1
-        /\ UNCHANGED snaps
+        /\ olds' = IF IsOld THEN olds \cup {-1000 - ghost} ELSE olds
+        /\ UNCHANGED <<snaps, gone>>
+
+(* a version the server holds may be answered "no such version" only by a backend that   *)
+(* discards, and only if a stored snapshot covers it and it is older than the retention  *)
+(* age; the specification then counts it as discarded (a clone that still has the file   *)
+(* may go on serving it: that is the same version, byte for byte)                        *)
+Discardable(id) == CanTrim /\ Covered(id) /\ id \in olds
 
 TGetChild ==
   /\ IsEvent("GC") /\ E.res # "error"
-  /\ LET r == GetChildResult(E.parent) IN
-     IF r.kind = "none" THEN E.res = "none" /\ UNCHANGED cvars
+  /\ LET r == GetChildRaw(E.parent) IN
+     IF r.kind = "none" THEN E.res = "none" /\ UNCHANGED <<cvars, olds>>
+     ELSE IF E.res = "none"
+     THEN /\ Discardable(r.id)
+          /\ gone' = gone \cup {r.id}
+          /\ UNCHANGED <<chain, snaps, ghost, olds>>
      ELSE /\ E.res = "version" /\ E.parent_ok
           /\ Match(r.id, E.ver)
           /\ r.body = E.body                      \* byte for byte (the harness compares bytes)
           /\ chain' = Learn(chain, r.id, E.ver)
+          /\ gone' = RenSet(gone, r.id, E.ver) /\ olds' = RenSet(olds, r.id, E.ver)
           /\ UNCHANGED <<snaps, ghost>>
 
 (* a read that failed because of an injected fault changes nothing *)
-TReadFailed == (IsEvent("GC") \/ IsEvent("GS")) /\ E.res = "error" /\ E.faulted /\ UNCHANGED cvars
+TReadFailed == (IsEvent("GC") \/ IsEvent("GS")) /\ E.res = "error" /\ E.faulted /\ UNCHANGED <<cvars, olds>>
 
 TAddSnapshot ==
-  /\ IsEvent("AS") /\ WithSnapshots
+  /\ IsEvent("AS") /\ WithSnapshots /\ UNCHANGED olds
   /\ \/ E.res = "ok" /\ AddSnapshot(E.ver, E.body)
      \/ E.res = "error" /\ (UNCHANGED cvars \/ AddSnapshot(E.ver, E.body))
 
+(* the snapshot handed out is one that was stored, with its version; when versions have  *)
+(* been discarded it must cover all of them, or a new replica could not reach the latest *)
+(* state (ServedCovers is evaluated on every GS event of a discarding backend)            *)
 TGetSnapshot ==
-  /\ IsEvent("GS") /\ E.res # "error"
+  /\ IsEvent("GS") /\ E.res # "error" /\ UNCHANGED olds
   /\ IF ~WithSnapshots \/ snaps = {} THEN E.res = "nosnap" /\ UNCHANGED cvars
      ELSE /\ E.res = "snapshot"
           /\ [ver |-> E.ver, body |-> E.body] \in snaps
+          /\ ExpectCovers => \A id \in gone : CoveredBy(id, [ver |-> E.ver, body |-> E.body])
           /\ UNCHANGED cvars
 
-TReopen == IsEvent("Reopen") /\ UNCHANGED cvars
+TReopen == IsEvent("Reopen") /\ UNCHANGED <<cvars, olds>>
 
 (* replicas syncing through the backend after the calls above all succeeded   *)
 (* and hold the same tasks                                                   *)
-TConverge == IsEvent("Converge") /\ E.ok /\ UNCHANGED cvars
+TConverge == IsEvent("Converge") /\ E.ok /\ UNCHANGED <<cvars, olds>>
 
-TNext == TReset \/ TAddOk \/ TAddRejected \/ TAddFaultedAccepted \/ TOpenFailed \/ TAddFailed \/ TGetChild \/ TReadFailed
+TNext == TReset \/ TEpoch \/ TAddOk \/ TAddRejected \/ TOpenFailed \/ TAddFailed \/ TGetChild \/ TReadFailed
          \/ TAddSnapshot \/ TGetSnapshot \/ TReopen \/ TConverge
-TInit == CInit /\ l = 1
+TInit == CInit /\ l = 1 /\ olds = {}
 TSpec == TInit /\ [][TNext]_tvars
 
 Accepted ==
